@@ -540,6 +540,19 @@ def _comparators(ctx, prog, sorter):
                         ctx.fn(kb)
                         cb = kb
                         rv = [('call', 'Option::unwrap_or', ('call', 'PartialOrd::partial_cmp', krv[0], krv[0]))]
+                    elif len(krv) > 1:
+                        # one cost closure that chooses its formula itself (`match &self.constraints { Some(c) if c.sorting_weight != BY_PREV
+                        # => weighted, _ => distance to previous }`): every formula it can return is judged like a comparator's
+                        ctx.fn(kb)
+                        for n_, k_ in enumerate(krv):
+                            _judge_cost(ctx, kb, sorter, dist, [('call', 'Option::unwrap_or', ('call', 'PartialOrd::partial_cmp', k_, k_))], '%s/case%d' % (key, n_))
+                        continue
+        _judge_cost(ctx, cb, sorter, dist, rv if ok else [], key)
+
+
+def _judge_cost(ctx, cb, sorter, dist, rv, key):
+    ok = bool(rv)
+    if True:
         # plain comparator (no weights): the cost is the distance to `previous`
         if rv and ok and not mir.contains(rv[0], lambda x: x[0] == 'bin' and x[1] == 'Mul'):
             A0 = strip(strip(rv[0][2])[2])
